@@ -1,5 +1,369 @@
 /- helper lemmas for the codec (C12) -/
 import MelModel.VM.Codec
-namespace Mel.VM
+namespace Mel
 open Mel
+
+/-! ### big-endian byte strings -/
+
+@[simp] theorem toBE_length (n v : Nat) : (toBE n v).length = n := by
+  induction n generalizing v with
+  | zero => simp [toBE]
+  | succ n ih => simp [toBE, ih]
+
+theorem fromBE_nil : fromBE [] = 0 := rfl
+
+theorem fromBE_snoc (bs : Bytes) (b : UInt8) :
+    fromBE (bs ++ [b]) = fromBE bs * 256 + b.toNat := by
+  simp [fromBE, List.foldl_append]
+
+theorem fromBE_toBE (n v : Nat) : fromBE (toBE n v) = v % 256 ^ n := by
+  induction n generalizing v with
+  | zero => simp [toBE, fromBE_nil, Nat.mod_one]
+  | succ n ih =>
+    rw [toBE, fromBE_snoc, ih, UInt8.toNat_ofNat']
+    have e : 256 ^ (n + 1) = 256 * 256 ^ n := by rw [Nat.pow_succ, Nat.mul_comm]
+    rw [e, Nat.mod_mul]
+    omega
+
+theorem snoc_induction {P : Bytes → Prop} (nil : P [])
+    (append_singleton : ∀ l b, P l → P (l ++ [b])) (bs : Bytes) : P bs := by
+  suffices h : ∀ l : Bytes, P l.reverse by simpa using h bs.reverse
+  intro l
+  induction l with
+  | nil => simpa using nil
+  | cons a l ih => simpa using append_singleton _ a ih
+
+theorem toBE_fromBE (bs : Bytes) : toBE bs.length (fromBE bs) = bs := by
+  induction bs using snoc_induction with
+  | nil => simp [toBE]
+  | append_singleton l b ih =>
+    have hb : b.toNat < 256 := UInt8.toNat_lt b
+    rw [List.length_append, List.length_singleton, toBE, fromBE_snoc]
+    have h1 : (fromBE l * 256 + b.toNat) / 256 = fromBE l := by omega
+    have h2 : (fromBE l * 256 + b.toNat) % 256 = b.toNat := by omega
+    rw [h1, h2, ih, UInt8.ofNat_toNat]
+
+theorem fromBE_lt (bs : Bytes) : fromBE bs < 256 ^ bs.length := by
+  induction bs using snoc_induction with
+  | nil => simp [fromBE_nil]
+  | append_singleton l b ih =>
+    have hb : b.toNat < 256 := UInt8.toNat_lt b
+    rw [List.length_append, List.length_singleton, fromBE_snoc, Nat.pow_succ]
+    omega
+
+/-! ### significant length -/
+
+theorem sigLen_zero : sigLen 0 = 0 := by
+  rw [sigLen]; simp
+
+theorem sigLen_pos (v : Nat) (h : v ≠ 0) : sigLen v = sigLen (v / 256) + 1 := by
+  rw [sigLen]; simp [h]
+
+theorem lt_pow_sigLen (v : Nat) : v < 256 ^ sigLen v := by
+  induction v using Nat.strongRecOn with
+  | _ v ih =>
+    by_cases h : v = 0
+    · subst h; simp [sigLen_zero]
+    · rw [sigLen_pos v h, Nat.pow_succ]
+      have := ih (v / 256) (by omega)
+      omega
+
+theorem sigLen_le_of_lt_pow (n v : Nat) (h : v < 256 ^ n) : sigLen v ≤ n := by
+  induction n generalizing v with
+  | zero =>
+    have : v = 0 := by simpa using h
+    subst this; simp [sigLen_zero]
+  | succ n ih =>
+    by_cases hv : v = 0
+    · subst hv; simp [sigLen_zero]
+    · rw [sigLen_pos v hv]
+      rw [Nat.pow_succ] at h
+      have := ih (v / 256) (by omega)
+      omega
+
+theorem lt_pow_of_sigLen_le (n v : Nat) (h : sigLen v ≤ n) : v < 256 ^ n :=
+  Nat.lt_of_lt_of_le (lt_pow_sigLen v) (Nat.pow_le_pow_right (by decide) h)
+
+theorem sigLen_le_iff (n v : Nat) : sigLen v ≤ n ↔ v < 256 ^ n :=
+  ⟨lt_pow_of_sigLen_le n v, sigLen_le_of_lt_pow n v⟩
+
+theorem pow_256_32 : 256 ^ 32 = 2 ^ 256 := by decide
+
+theorem fromBE_toBE_sigLen (v : Nat) : fromBE (toBE (sigLen v) v) = v := by
+  rw [fromBE_toBE, Nat.mod_eq_of_lt (lt_pow_sigLen v)]
+
+theorem fromBE_toBE_32 (v : BitVec 256) : fromBE (toBE 32 v.toNat) = v.toNat := by
+  rw [fromBE_toBE, pow_256_32, Nat.mod_eq_of_lt v.isLt]
+
+theorem sigLen_u256_le (v : BitVec 256) : sigLen v.toNat ≤ 32 :=
+  sigLen_le_of_lt_pow 32 _ (by rw [pow_256_32]; exact v.isLt)
+
+end Mel
+
+namespace Mel.VM
+open Mel Mel.Gen
+
+/-! ### u16 arguments -/
+
+theorem u16BE_eq (n : UInt16) :
+    u16BE n = [UInt8.ofNat (n.toNat / 256 % 256), UInt8.ofNat (n.toNat % 256)] := by
+  simp [u16BE, toBE]
+
+theorem u16arg_u16BE (n : UInt16) (rest : Bytes) : u16arg (u16BE n ++ rest) = some (n, rest) := by
+  have hn : n.toNat < 65536 := UInt16.toNat_lt n
+  rw [u16BE_eq]
+  simp only [List.cons_append, List.nil_append, u16arg, UInt8.toNat_ofNat']
+  have : n.toNat / 256 % 256 % 2 ^ 8 * 256 + n.toNat % 256 % 2 ^ 8 = n.toNat := by omega
+  rw [this, UInt16.ofNat_toNat]
+
+theorem u16arg_eq_some {bs : Bytes} {n : UInt16} {rest : Bytes}
+    (h : u16arg bs = some (n, rest)) : bs = u16BE n ++ rest := by
+  match bs, h with
+  | a :: b :: r, h =>
+    simp only [u16arg, Option.some.injEq, Prod.mk.injEq] at h
+    obtain ⟨h1, h2⟩ := h
+    subst h1 h2
+    have ha : a.toNat < 256 := UInt8.toNat_lt a
+    have hb : b.toNat < 256 := UInt8.toNat_lt b
+    rw [u16BE_eq, UInt16.toNat_ofNat']
+    have h1 : (a.toNat * 256 + b.toNat) % 2 ^ 16 / 256 % 256 = a.toNat := by omega
+    have h2 : (a.toNat * 256 + b.toNat) % 2 ^ 16 % 256 = b.toNat := by omega
+    rw [h1, h2, UInt8.ofNat_toNat, UInt8.ofNat_toNat]
+    rfl
+
+/-! ### takeExact -/
+
+theorem takeExact_append (a rest : Bytes) : takeExact a.length (a ++ rest) = some (a, rest) := by
+  simp [takeExact]
+
+theorem takeExact_eq_some {n : Nat} {bs a rest : Bytes} (h : takeExact n bs = some (a, rest)) :
+    bs = a ++ rest ∧ a.length = n := by
+  unfold takeExact at h
+  split at h
+  · simp only [Option.some.injEq, Prod.mk.injEq] at h
+    obtain ⟨h1, h2⟩ := h
+    subst h1 h2
+    refine ⟨(List.take_append_drop n bs).symm, ?_⟩
+    rw [List.length_take]; omega
+  · cases h
+
+/-! ### single instruction -/
+
+/-- `simp` with `decodeOp` and every generated opcode constant unfolded, so that all byte
+    comparisons in the `decodeOp` if-chain are decided on the literal values of the table. -/
+macro "codec_simp" "[" ls:Lean.Parser.Tactic.simpLemma,* "]" : tactic =>
+  `(tactic| simp [decodeOp, OPCODE_NOOP, OPCODE_ADD, OPCODE_SUB, OPCODE_MUL, OPCODE_DIV, OPCODE_REM, OPCODE_EXP, OPCODE_AND, OPCODE_OR, OPCODE_XOR, OPCODE_NOT, OPCODE_EQL, OPCODE_LT, OPCODE_GT, OPCODE_SHL, OPCODE_SHR, OPCODE_HASH, OPCODE_SIGEOK, OPCODE_LOAD, OPCODE_STORE, OPCODE_LOADIMM, OPCODE_STOREIMM, OPCODE_VREF, OPCODE_VAPPEND, OPCODE_VEMPTY, OPCODE_VLENGTH, OPCODE_VSLICE, OPCODE_VSET, OPCODE_VPUSH, OPCODE_VCONS, OPCODE_BREF, OPCODE_BAPPEND, OPCODE_BEMPTY, OPCODE_BLENGTH, OPCODE_BSLICE, OPCODE_BSET, OPCODE_BPUSH, OPCODE_BCONS, OPCODE_JMP, OPCODE_BEZ, OPCODE_BNZ, OPCODE_LOOP, OPCODE_ITOB, OPCODE_BTOI, OPCODE_TYPEQ, OPCODE_PUSHB, OPCODE_PUSHI, OPCODE_PUSHIC, OPCODE_DUP, encNoop, encAdd, encSub, encMul, encDiv, encRem, encExp, encAnd, encOr, encXor, encNot, encEql, encLt, encGt, encShl, encShr, encHash, encSigEOk, encStore, encLoad, encStoreImm, encLoadImm, encVRef, encVAppend, encVEmpty, encVLength, encVSlice, encVSet, encVPush, encVCons, encBRef, encBAppend, encBEmpty, encBLength, encBSlice, encBSet, encBPush, encBCons, encBez, encBnz, encJmp, encLoop, encItoB, encBtoI, encTypeQ, encPushB, encPushI, encPushIC, encDup, decNoop, decAdd, decSub, decMul, decDiv, decRem, decExp, decAnd, decOr, decXor, decNot, decEql, decLt, decGt, decShl, decShr, decHash, decSigEOk, decStore, decLoad, decStoreImm, decLoadImm, decVRef, decVAppend, decVEmpty, decVLength, decVSlice, decVSet, decVPush, decVCons, decBRef, decBAppend, decBEmpty, decBLength, decBSlice, decBSet, decBPush, decBCons, decBez, decBnz, decJmp, decLoop, decItoB, decBtoI, decTypeQ, decPushB, decPushI, decPushIC, decDup, $ls,*])
+
+/-- decoding an encoded instruction (opcode bytes compared by unfolding the generated table) -/
+theorem decodeOp_encodeOp (op : Op) (enc rest : Bytes) (h : encodeOp op = some enc) :
+    decodeOp (enc ++ rest) = some (op, rest) := by
+  cases op
+  case pushb bs =>
+    simp [encodeOp] at h
+    obtain ⟨h1, h⟩ := h
+    subst h
+    have : (UInt8.ofNat bs.length).toNat = bs.length := by
+      rw [UInt8.toNat_ofNat']; omega
+    codec_simp [this, takeExact_append]
+  case pushi v =>
+    simp [encodeOp] at h; subst h
+    have := takeExact_append (toBE 32 v.toNat) rest
+    rw [toBE_length] at this
+    codec_simp [this, fromBE_toBE_32]
+  case pushic v =>
+    simp [encodeOp] at h; subst h
+    have hle := sigLen_u256_le v
+    have h1 : (UInt8.ofNat (sigLen v.toNat)).toNat = sigLen v.toNat := by
+      rw [UInt8.toNat_ofNat']; omega
+    have := takeExact_append (toBE (sigLen v.toNat) v.toNat) rest
+    rw [toBE_length] at this
+    codec_simp [h1, hle, this, fromBE_toBE_sigLen]
+  all_goals (simp [encodeOp] at h; subst h)
+  all_goals (codec_simp [u16arg_u16BE]; done)
+
+theorem ite_some_elim {c : Prop} [Decidable c] {α : Type} {a b : Option α} {x : α} {P : Prop}
+    (h1 : c → a = some x → P) (h2 : ¬c → b = some x → P) :
+    (if c then a else b) = some x → P := by
+  intro h; split at h
+  · exact h1 ‹_› h
+  · exact h2 ‹_› h
+
+set_option hygiene false in
+macro "peel_ite" : tactic => `(tactic| (revert h; apply ite_some_elim <;> intro hc h))
+
+/-- whatever decodes is the canonical encoding of its result -/
+theorem encodeOp_decodeOp (bs rest : Bytes) (op : Op) (h : decodeOp bs = some (op, rest)) :
+    ∃ enc, encodeOp op = some enc ∧ bs = enc ++ rest := by
+  match bs, h with
+  | b :: r, h =>
+  simp only [decodeOp] at h
+  repeat' peel_ite
+  all_goals try (simp only [Option.some.injEq, Prod.mk.injEq] at h; obtain ⟨rfl, rfl⟩ := h; subst_vars; exact ⟨_, rfl, rfl⟩)
+  all_goals try (
+    simp only [Option.map_eq_some_iff, Prod.exists, Prod.mk.injEq] at h
+    obtain ⟨n, r', hu, rfl, rfl⟩ := h
+    have := u16arg_eq_some hu
+    subst_vars
+    exact ⟨_, rfl, rfl⟩)
+  · -- exp
+    split at h
+    · simp only [Option.some.injEq, Prod.mk.injEq] at h; obtain ⟨rfl, rfl⟩ := h
+      subst_vars; exact ⟨_, rfl, rfl⟩
+    · cases h
+  · -- loop
+    split at h
+    · rename_i it r' hu
+      simp only [Option.map_eq_some_iff, Prod.exists, Prod.mk.injEq] at h
+      obtain ⟨n, r'', hu', rfl, rfl⟩ := h
+      have h1 := u16arg_eq_some hu
+      have h2 := u16arg_eq_some hu'
+      subst_vars
+      exact ⟨_, rfl, by simp [encLoop, decLoop]⟩
+    · cases h
+  · -- pushb
+    split at h
+    · rename_i len r'
+      simp only [Option.map_eq_some_iff, Prod.exists, Prod.mk.injEq] at h
+      obtain ⟨a, r'', ht, rfl, rfl⟩ := h
+      obtain ⟨h1, h2⟩ := takeExact_eq_some ht
+      have hl : len.toNat < 256 := UInt8.toNat_lt len
+      subst_vars
+      refine ⟨encPushB :: UInt8.ofNat a.length :: a, ?_, ?_⟩
+      · simp [encodeOp]; omega
+      · rw [h2, UInt8.ofNat_toNat]; rfl
+    · cases h
+  · -- pushi
+    simp only [Option.map_eq_some_iff, Prod.exists, Prod.mk.injEq] at h
+    obtain ⟨a, r'', ht, rfl, rfl⟩ := h
+    obtain ⟨h1, h2⟩ := takeExact_eq_some ht
+    subst_vars
+    refine ⟨encPushI :: a, ?_, rfl⟩
+    have hlt := fromBE_lt a
+    rw [h2, pow_256_32] at hlt
+    simp only [encodeOp, BitVec.toNat_ofNat, Nat.mod_eq_of_lt hlt]
+    rw [← h2, toBE_fromBE]
+  · -- pushic
+    split at h
+    · rename_i len r'
+      split at h
+      · cases h
+      · rename_i hle
+        split at h
+        · rename_i a r'' ht
+          split at h
+          · rename_i hs
+            simp only [Option.some.injEq, Prod.mk.injEq] at h; obtain ⟨rfl, rfl⟩ := h
+            obtain ⟨h1, h2⟩ := takeExact_eq_some ht
+            subst_vars
+            have hlt : fromBE a < 2 ^ 256 := by
+              rw [← pow_256_32]
+              exact lt_pow_of_sigLen_le 32 _ (by omega)
+            refine ⟨encPushIC :: len :: a, ?_, rfl⟩
+            simp only [encodeOp, BitVec.toNat_ofNat, Nat.mod_eq_of_lt hlt]
+            rw [hs, UInt8.ofNat_toNat, ← h2, toBE_fromBE]
+          · cases h
+        · cases h
+    · cases h
+  · cases h
+
+/-! ### programs -/
+
+theorem encodeOp_ne_nil {op : Op} {enc : Bytes} (h : encodeOp op = some enc) : enc ≠ [] := by
+  cases op
+  case pushb bs =>
+    simp [encodeOp] at h
+    obtain ⟨_, rfl⟩ := h
+    simp
+  all_goals (simp [encodeOp] at h; subst h; simp)
+
+theorem decodeOp_length_lt {bs rest : Bytes} {op : Op} (h : decodeOp bs = some (op, rest)) :
+    rest.length < bs.length := by
+  obtain ⟨enc, he, rfl⟩ := encodeOp_decodeOp bs rest op h
+  have := encodeOp_ne_nil he
+  cases enc with
+  | nil => exact absurd rfl this
+  | cons a l => simp; omega
+
+theorem decodeFuel_nil (fuel : Nat) : decodeFuel fuel [] = some [] := by
+  cases fuel <;> rfl
+
+theorem decodeFuel_succ_cons (fuel : Nat) (b : UInt8) (r : Bytes) :
+    decodeFuel (fuel + 1) (b :: r) =
+      match decodeOp (b :: r) with
+      | none => none
+      | some (op, rest) => (decodeFuel fuel rest).map (op :: ·) := rfl
+
+theorem encodeAll_cons (op : Op) (ops : List Op) :
+    encodeAll (op :: ops) = (encodeOp op).bind fun a => (encodeAll ops).map fun b => a ++ b := by
+  cases h1 : encodeOp op <;> cases h2 : encodeAll ops <;> simp [encodeAll, h1, h2]
+
+theorem encodeAll_cons_eq_some {op : Op} {ops : List Op} {bs : Bytes} :
+    encodeAll (op :: ops) = some bs ↔
+      ∃ a b, encodeOp op = some a ∧ encodeAll ops = some b ∧ bs = a ++ b := by
+  rw [encodeAll_cons]
+  cases h1 : encodeOp op <;> cases h2 : encodeAll ops <;> simp [eq_comm]
+
+theorem encodeAll_of_decodeFuel (fuel : Nat) (bs : Bytes) (ops : List Op)
+    (h : decodeFuel fuel bs = some ops) : encodeAll ops = some bs := by
+  induction fuel generalizing bs ops with
+  | zero =>
+    cases bs with
+    | nil => rw [decodeFuel_nil] at h; cases h; rfl
+    | cons b r => cases h
+  | succ fuel ih =>
+    cases bs with
+    | nil => rw [decodeFuel_nil] at h; cases h; rfl
+    | cons b r =>
+      rw [decodeFuel_succ_cons] at h
+      split at h
+      · cases h
+      · rename_i op rest hd
+        simp only [Option.map_eq_some_iff] at h
+        obtain ⟨ops', hf, rfl⟩ := h
+        obtain ⟨enc, he, hb⟩ := encodeOp_decodeOp _ _ _ hd
+        rw [encodeAll_cons_eq_some]
+        exact ⟨enc, rest, he, ih _ _ hf, hb⟩
+
+theorem decodeFuel_of_encodeAll (ops : List Op) (bs : Bytes) (h : encodeAll ops = some bs)
+    (fuel : Nat) (hf : ops.length ≤ fuel) : decodeFuel fuel bs = some ops := by
+  induction ops generalizing bs fuel with
+  | nil =>
+    simp [encodeAll] at h; subst h; exact decodeFuel_nil fuel
+  | cons op ops ih =>
+    rw [encodeAll_cons_eq_some] at h
+    obtain ⟨a, b, ha, hb, rfl⟩ := h
+    have hne := encodeOp_ne_nil ha
+    have hd := decodeOp_encodeOp op a b ha
+    cases fuel with
+    | zero => simp at hf
+    | succ fuel =>
+      cases a with
+      | nil => exact absurd rfl hne
+      | cons x a =>
+        rw [List.cons_append, decodeFuel_succ_cons, ← List.cons_append, hd]
+        simp only [List.length_cons, Nat.add_le_add_iff_right] at hf
+        simp [ih b hb fuel hf]
+
+theorem encodeAll_length {ops : List Op} {bs : Bytes} (h : encodeAll ops = some bs) :
+    ops.length ≤ bs.length := by
+  induction ops generalizing bs with
+  | nil => simp
+  | cons op ops ih =>
+    rw [encodeAll_cons_eq_some] at h
+    obtain ⟨a, b, ha, hb, rfl⟩ := h
+    have hne := encodeOp_ne_nil ha
+    have := ih hb
+    cases a with
+    | nil => exact absurd rfl hne
+    | cons x a => simp; omega
+
+theorem encodeOp_isSome_iff (op : Op) :
+    (encodeOp op).isSome ↔ ∀ bs, op = Op.pushb bs → bs.length ≤ 255 := by
+  cases op
+  case pushb bs =>
+    simp only [encodeOp]
+    split <;> simp <;> omega
+  all_goals simp [encodeOp]
+
+
 end Mel.VM
